@@ -9,7 +9,7 @@ use num_traits::{One, Zero};
 
 use multiversx_sc::codec::multi_types::OptionalValue;
 use multiversx_sc::storage::mappers::StorageTokenWrapper;
-use multiversx_sc::types::{Address, EsdtLocalRole, ManagedVec, MultiValueEncoded};
+use multiversx_sc::types::{Address, EsdtLocalRole, MultiValueEncoded};
 use multiversx_sc_scenario::{
     managed_address, managed_token_id, rust_biguint, whitebox_legacy::*, DebugApi,
 };
@@ -1229,7 +1229,8 @@ impl EnergyWorld {
                 let usr = if hold.is_empty() { u } else { rng.pick(&hold).0 };
                 let mine: Vec<&(u64, u64, BigUint, u64)> = hold.iter().filter(|h| h.0 == usr).collect();
                 let mut ps: Pays = vec![];
-                let cnt = rng.range(if rng.chance(1, 15) { 0 } else { 1 }, 3);
+                let lo = if rng.chance(1, 15) { 0 } else { 1 };
+                let cnt = rng.range(lo, 3);
                 for _ in 0..cnt {
                     if mine.is_empty() { break; }
                     let h = *rng.pick(&mine);
